@@ -4,7 +4,7 @@ From PegV Require Import Model.Cli Generated.CliFacts Proofs.CliProofs.
 
 (** For every combination of -strict, source (file / stdin), -output (unset / FILE / -), and outcome
     of each step of main (open input, open output, read, front-end parse, Compile in
-    {ok, warnings, template error, invalid Go}) - the enumeration [all_inputs] is proved complete -
+    {ok, warnings, template error, invalid Go}, writing the result) - the enumeration [all_inputs] is proved complete -
     the decision function of main.go, instantiated with the facts regenerated from main.go's AST:
     exits 0 only after a complete parser was written to the destination the flags denote; every
     failure class gives a non-zero exit and a message with or without -strict; warnings fail under
@@ -16,7 +16,7 @@ Print Assumptions C18_exit_zero_iff_complete.
 
 (** non-vacuity: a missing grammar file without -strict is a failing input and exits non-zero *)
 Example C18_nonvacuous :
-  let i := mkin false SrcFile OutUnset false true true true CompOk in
+  let i := mkin false SrcFile OutUnset false true true true CompOk true in
   failing i = true /\ co_exit_zero (cli_model fatal_on_error fatal_only_if_strict i) = false /\
-  length all_inputs = 768.
+  length all_inputs = 1536.
 Proof. vm_compute. repeat split; reflexivity. Qed.
